@@ -6,6 +6,9 @@
 // case file:   CASE <id> <kind> <args...>     followed by one operation per line
 // output:      CASE <id>  /  init <state>  /  <op> ret=<result> <state>
 #include "soplex.h"
+#include <sys/wait.h>
+#include <unistd.h>
+#include <signal.h>
 #include "common.hpp"
 #include <fstream>
 #include <algorithm>
@@ -1911,9 +1914,72 @@ static void runCases(const char* file)
    }
 }
 
+// ---------------------------------------------------------------------------------------------------------
+// DataHashTable at the sizes its own prime table names (and their neighbours): the probing step m_hashsize must not be a
+// multiple of the table size, otherwise add() never ends on the first collision.  Each size runs in a child under an alarm.
+// ---------------------------------------------------------------------------------------------------------
+static int idHash(const int* k)
+{
+   return *k;
+}
+static void hashPrimes()
+{
+   std::vector<int> sizes;
+   {
+      DataHashTable<int, int> probe(idHash, 4, 0);
+
+      for(int k = 0; k < probe.nprimes && k < 6; k++)
+         for(int d = -1; d <= 1; d++)
+            sizes.push_back(probe.primes[k] + d);
+   }
+
+   for(int sz : sizes)
+   {
+      fflush(stdout);
+      pid_t pid = fork();
+
+      if(pid == 0)
+      {
+         alarm(20);
+         DataHashTable<int, int> h(idHash, sz, 0);
+         int msz = h.m_elem.size();
+         bool ok = true;
+
+         // keys that collide modulo the table size
+         for(int k = 0; k < 40; k++)
+         {
+            h.add(k, 10 * k);
+            h.add(k + msz, 10 * k + 1);
+            h.add(k + 2 * msz, 10 * k + 2);
+         }
+
+         for(int k = 0; k < 40 && ok; k++)
+            ok = h.has(k) && *h.get(k) == 10 * k && h.has(k + msz) && *h.get(k + msz) == 10 * k + 1 && h.has(k + 2 * msz) && *h.get(k + 2 * msz) == 10 * k + 2;
+
+         for(int k = 0; k < 40; k += 2)
+            h.remove(k + msz);
+
+         for(int k = 0; k < 40 && ok; k++)
+            ok = h.has(k) && (h.has(k + msz) == (k % 2 == 1)) && h.has(k + 2 * msz) && !h.has(k + 3 * msz);
+
+         printf("HASHPRIME %d elems=%d hashsize=%d %s\n", sz, msz, h.m_hashsize, ok ? "ok" : "wrong");
+         fflush(stdout);
+         _exit(0);
+      }
+
+      int st = 0;
+      waitpid(pid, &st, 0);
+
+      if(WIFSIGNALED(st))
+         printf("HASHPRIME %d %s\n", sz, WTERMSIG(st) == SIGALRM ? "hang" : "crash");
+   }
+}
+
 int main(int argc, char** argv)
 {
-   if(argc >= 3 && !strcmp(argv[1], "run"))
+   if(argc >= 2 && !strcmp(argv[1], "hashprimes"))
+      hashPrimes();
+   else if(argc >= 3 && !strcmp(argv[1], "run"))
       runCases(argv[2]);
    else
    {
